@@ -70,20 +70,22 @@ type lbEngine struct {
 	memo        map[string]*lstate
 	lostDumped  bool
 	recorded    map[string]bool
-	scanNeed    map[string]int64 // C14/R10: terminator -> bytes of the opener the search must have left behind
-	scanFns     map[string]bool  // functions whose loops are byte scans: checked for unit steps and exhaustive exits
-	progress    bool             // C03/R7: every loop iteration advances the cursor or a counter
-	tiling      bool             // C13/R4: track the Space/Raw/Pos/End stores of tokens and comments
-	tokProg     bool             // C13/R6: every return of the token readers has consumed at least one byte (or is at <eof>)
-	numFollow   bool             // C14/R11: what consumeNumber rejects / accepts right behind a number
-	identPart   bset             // the bytes char.IsIdentPart accepts (C14/R6)
-	bytes       bool             // C03/R9: track what is known about single bytes of the buffer
-	inlineAlso  map[string]bool  // with shallow: cursor-moving methods that are followed all the same
-	foldEq      bool             // C16/R3: char.EqualFold returns true only for equal lengths, after the last index
-	split       bool             // C12/R5: SplitRawStatements over the contract of Lexer.NextToken (token fields as atoms)
-	tokLen      bool             // C06/R3: track Token.Kind / Token.AsString stores of the token reader; <param> spans '@' + its name
-	shallow     bool             // calls to lexer methods only move the cursor forward (not followed)
-	shallowLeaf bool             // ... except loop-free leaf helpers (skip, skipN, peek*), which are still inlined
+	scanNeed    map[string]int64            // C14/R10: terminator -> bytes of the opener the search must have left behind
+	scanFns     map[string]bool             // functions whose loops are byte scans: checked for unit steps and exhaustive exits
+	progress    bool                        // C03/R7: every loop iteration advances the cursor or a counter
+	tiling      bool                        // C13/R4: track the Space/Raw/Pos/End stores of tokens and comments
+	tokProg     bool                        // C13/R6: every return of the token readers has consumed at least one byte (or is at <eof>)
+	numFollow   bool                        // C14/R11: what consumeNumber rejects / accepts right behind a number
+	cutEdges    map[[2]*ssa.BasicBlock]bool // trace partition: CFG edges that are not taken in this run
+	hexDigits   bool                        // C14/R12: in the hex partition of consumeNumber every skipN has seen a digit behind "0x"
+	identPart   bset                        // the bytes char.IsIdentPart accepts (C14/R6)
+	bytes       bool                        // C03/R9: track what is known about single bytes of the buffer
+	inlineAlso  map[string]bool             // with shallow: cursor-moving methods that are followed all the same
+	foldEq      bool                        // C16/R3: char.EqualFold returns true only for equal lengths, after the last index
+	split       bool                        // C12/R5: SplitRawStatements over the contract of Lexer.NextToken (token fields as atoms)
+	tokLen      bool                        // C06/R3: track Token.Kind / Token.AsString stores of the token reader; <param> spans '@' + its name
+	shallow     bool                        // calls to lexer methods only move the cursor forward (not followed)
+	shallowLeaf bool                        // ... except loop-free leaf helpers (skip, skipN, peek*), which are still inlined
 	rootPre     []string
 	owner       map[atomID]ssa.Value
 	live        map[*ssa.Function]map[*ssa.BasicBlock]map[ssa.Value]bool
@@ -528,6 +530,9 @@ func (e *lbEngine) run(in *lbInst, entry *lstate) []lbRet {
 		var zeros [][]lin
 		for _, p := range b.Preds {
 			s := edge[[2]int{p.Index, b.Index}]
+			if e.cutEdges != nil && e.cutEdges[[2]*ssa.BasicBlock{p, b}] {
+				s = nil
+			}
 			var z []lin
 			if s != nil {
 				s, z = e.phiAssign(in, b, p, s)
@@ -1595,6 +1600,19 @@ func (e *lbEngine) execBlock(in *lbInst, b *ssa.BasicBlock, st *lstate, rets *[]
 		case *ssa.Slice:
 			e.sliceOb(in, st, x)
 		case *ssa.Call:
+			if e.hexDigits && e.record && in.fn.Name() == "consumeNumber" {
+				badArm := false
+				for _, y := range b.Instrs {
+					if sy, ok := y.(*ssa.Store); ok && isKindBadStore(sy) {
+						badArm = true // the malformed prefix is consumed as a <bad> token in recovering mode
+					}
+				}
+				if sc := x.Call.StaticCallee(); sc != nil && sc.Name() == "skipN" && len(x.Call.Args) == 2 && !badArm {
+					if l, ok := e.linear(in, x.Call.Args[1]); ok {
+						e.requireAt(st, in.fn, x, "C14/R12", "consumeNumber: a hex literal is consumed only with at least one digit behind its prefix", []string{"bytes consumed >= 3 (\"0x\" and a digit)"}, []lin{l.add(linConst(-3))})
+					}
+				}
+			}
 			if e.numFollow && e.record && in.fn.Name() == "consumeNumber" {
 				if sc := x.Call.StaticCallee(); sc != nil && strings.HasPrefix(sc.Name(), "panicf") {
 					e.numFollowReject(in, st, x)
@@ -2851,6 +2869,41 @@ func ruleC13R6(w *World, r *Report) {
 	}
 }
 
+// pathOnlyThrough: every path from the entry to target passes one of the blocks that, like via, store the number's
+// kind (the two arms of `if int { Kind = <int> } else { Kind = <float> }` dominate nothing on their own).
+func pathOnlyThrough(fn *ssa.Function, via, target *ssa.BasicBlock) bool {
+	kindBlocks := map[*ssa.BasicBlock]bool{}
+	for _, b := range fn.Blocks {
+		for _, x := range b.Instrs {
+			if st, ok := x.(*ssa.Store); ok {
+				if fa, ok := st.Addr.(*ssa.FieldAddr); ok && fieldAddrName(fa) == "Kind" {
+					if k, ok := constString(st.Val); ok && (k == "<int>" || k == "<float>") {
+						kindBlocks[b] = true
+					}
+				}
+			}
+		}
+	}
+	seen := map[*ssa.BasicBlock]bool{}
+	var reach func(b *ssa.BasicBlock) bool
+	reach = func(b *ssa.BasicBlock) bool {
+		if kindBlocks[b] || seen[b] {
+			return false
+		}
+		seen[b] = true
+		if b == target {
+			return true
+		}
+		for _, s := range b.Succs {
+			if reach(s) {
+				return true
+			}
+		}
+		return false
+	}
+	return !reach(fn.Blocks[0])
+}
+
 func isKindBadStore(x *ssa.Store) bool {
 	fa, ok := x.Addr.(*ssa.FieldAddr)
 	if !ok || fieldAddrName(fa) != "Kind" {
@@ -2863,6 +2916,25 @@ func isKindBadStore(x *ssa.Store) bool {
 // numFollowReject: a number is rejected (raise, or <bad> in recovering mode) only because an identifier character
 // follows it directly.
 func (e *lbEngine) numFollowReject(in *lbInst, st *lstate, at ssa.Instruction) {
+	// only rejections of a number that has already been classified (<int> / <float> stored on the way here): a
+	// malformed number ("0x" without a digit) is rejected for its own reason, before that
+	classified := false
+	for _, b := range in.fn.Blocks {
+		for _, x := range b.Instrs {
+			if stx, ok := x.(*ssa.Store); ok {
+				if fa, ok := stx.Addr.(*ssa.FieldAddr); ok && fieldAddrName(fa) == "Kind" {
+					if k, ok := constString(stx.Val); ok && (k == "<int>" || k == "<float>") {
+						if b == at.Block() || b.Dominates(at.Block()) || pathOnlyThrough(in.fn, b, at.Block()) {
+							classified = true
+						}
+					}
+				}
+			}
+		}
+	}
+	if !classified {
+		return
+	}
 	set, has := st.byteSet(linAtom(e.P))
 	okk := has
 	if has {
@@ -2959,6 +3031,79 @@ func ruleC14R11(w *World, r *Report) {
 	}
 	if n < 2 {
 		r.errorf("the rejection and the acceptance of consumeNumber were not both reached (%d obligations)", n)
+	}
+}
+
+// ruleC14R12: "0x" alone is not a number.
+func ruleC14R12(w *World, r *Report) {
+	const rule = "C14/R12"
+	r.rule(rule, "hexadecimal literals have at least one digit: consumeNumber is interpreted once per value of its base variable (a trace partition on the constant-valued phi that the \"0x\" prefix test sets to 16); in the hex partition every cursor move has consumed at least three bytes", 1)
+	defer debug.SetGCPercent(debug.SetGCPercent(1000))
+	root := w.fn(w.Mem, "(*Lexer).consumeNumber")
+	if root == nil {
+		r.errorf("(*Lexer).consumeNumber not found")
+		return
+	}
+	// the base variable: an int phi with constant edges 10 and 16
+	var basePhi *ssa.Phi
+	for _, b := range root.Blocks {
+		for _, in := range b.Instrs {
+			phi, ok := in.(*ssa.Phi)
+			if !ok {
+				break
+			}
+			vals := map[int64]bool{}
+			allConst := true
+			for _, e := range phi.Edges {
+				k, isC := constInt(e)
+				if !isC {
+					allConst = false
+					break
+				}
+				vals[k] = true
+			}
+			if allConst && vals[10] && vals[16] && len(vals) == 2 {
+				basePhi = phi
+			}
+		}
+	}
+	construct := "consumeNumber: hex partition"
+	if basePhi == nil {
+		r.undecided(rule, construct, w.pos(root.Pos()), "no variable of consumeNumber is set to 10 or 16 by the prefix test (the numeric base is kept in another way)")
+		return
+	}
+	e := w.newLexBounds()
+	e.shallow, e.shallowLeaf = true, true
+	e.hexDigits = true
+	e.cutEdges = map[[2]*ssa.BasicBlock]bool{}
+	jb := basePhi.Block()
+	for i, ed := range basePhi.Edges {
+		if k, _ := constInt(ed); k != 16 {
+			e.cutEdges[[2]*ssa.BasicBlock{jb.Preds[i], jb}] = true
+		}
+	}
+	e.trace = verboseRule() != "" && verboseRule() != "1" && strings.HasPrefix(rule, verboseRule())
+	e.runRoot(root, map[string]bool{"noPanic": false})
+	e.runRoot(root, map[string]bool{"noPanic": true})
+	n := 0
+	for _, ob := range e.results() {
+		if ob.rule != rule {
+			continue
+		}
+		n++
+		if ob.failed == 0 {
+			r.ok(rule, ob.construct, ob.where, fmt.Sprintf("proved in %d context(s)", ob.total))
+		} else {
+			var ds []string
+			for d := range ob.details {
+				ds = append(ds, d)
+			}
+			sort.Strings(ds)
+			r.bad(rule, ob.construct, ob.where, fmt.Sprintf("%d of %d context(s): %s — \"0x\" without a digit is taken for an integer", ob.failed, ob.total, strings.Join(ds, " | ")))
+		}
+	}
+	if n == 0 {
+		r.errorf("no cursor move of consumeNumber reached in the hex partition")
 	}
 }
 
